@@ -80,6 +80,8 @@ def _gen_derived(rng, cfg, factors, j):
     if cfg["nested_derived"]:
         cands += [f for f in factors if f["kind"] == "derived" and f["window"]["stride"] == 1]
     nargs = 1 if len(cands) == 1 else rng.choice([1, 2, 2])
+    if cfg.get("sm_single_arg_transition") and win["kind"] == "transition":
+        nargs = 1
     args = rng.sample(cands, nargs)
     nlev = rng.choice([2, 2, 3])
     f = {"id": "d%d" % j, "kind": "derived", "name": "D%d" % j, "window": win,
